@@ -64,7 +64,7 @@ R7_TRY_INTO_ISIZE = Rule("R7", "let $n : isize = $$e . try_into ( ) ? ;", "let $
                          why="usize -> isize conversion with value-preserving contract")
 
 
-def for_enumerate_into_iter(label, invariant, vec_name=None, pre_body="", post_body=""):
+def for_enumerate_into_iter(label, invariant, vec_name=None, pre_body="", post_body="", before=""):
     """R2: `for (i, x) in v.into_iter().enumerate() { B }` -> indexed while over clones of the items.
     The index is advanced before the body so `continue` cannot skip it; `idx` is the pre-increment value."""
 
@@ -72,7 +72,8 @@ def for_enumerate_into_iter(label, invariant, vec_name=None, pre_body="", post_b
         v = text(b["v"])
         i, x = text(b["i"]), text(b["x"])
         body = b["body"]
-        return [f"let mut verif_k_{label} : usize = 0 ; while verif_k_{label} < {v} . len ( )",
+        return [*([G(before.replace("$V", v))] if before else []),
+                f"let mut verif_k_{label} : usize = 0 ; while verif_k_{label} < {v} . len ( )",
                 G(invariant.replace("$K", f"verif_k_{label}").replace("$V", v)),
                 "{", f"let {i} = verif_k_{label} ; let {x} = clone_item ( & {v} [ {i} ] ) ; verif_k_{label} += 1 ;",
                 *( [G(pre_body.replace("$K", f"verif_k_{label}").replace("$V", v))] if pre_body else []),
@@ -125,7 +126,7 @@ class VUnit:
         self.uid, self.props, self.title, self.build, self.timeout = uid, props, title, build, timeout
 
 
-def for_each_iter_mut_enumerate(label, invariant, pre_body="", post_body=""):
+def for_each_iter_mut_enumerate(label, invariant, pre_body="", post_body="", before=""):
     """R2/R13: `v.iter_mut().enumerate().for_each(|(i, x)| BODY);` -> indexed while; `*x = e` -> `v.set(i, e)`;
     `x` is bound to a clone of the element (the closure only reads it before overwriting)."""
 
@@ -138,7 +139,8 @@ def for_each_iter_mut_enumerate(label, invariant, pre_body="", post_body=""):
         body = Rule("R13", "( ref $n )", "( $n )").apply(body, log)
         K = f"verif_k_{label}"
         sub = lambda s: s.replace("$K", K).replace("$V", v)
-        return [f"let mut {K} : usize = 0 ; while {K} < {v} . len ( )", G(sub(invariant)), "{",
+        return [*([G(sub(before))] if before else []),
+                f"let mut {K} : usize = 0 ; while {K} < {v} . len ( )", G(sub(invariant)), "{",
                 f"let {i} = {K} ; let {x} = clone_item ( & {v} [ {i} ] ) ; {K} += 1 ;",
                 *([G(sub(pre_body))] if pre_body else []), *body, ";",
                 *([G(sub(post_body))] if post_body else []), "}"]
